@@ -205,7 +205,11 @@ func (p *Processor) ChargingDataCreate(
 	ue.CULock.Unlock()
 
 	if chargingData.OneTimeEvent {
+		// the record is already reachable through ue.Records (an update of another session encodes all of them):
+		// close it under the subscriber lock
+		ue.CULock.Lock()
 		err = p.CloseCDR(cdr, false)
+		ue.CULock.Unlock()
 		if err != nil {
 			problemDetails := &models.ProblemDetails{
 				Status: http.StatusBadRequest,
